@@ -38,7 +38,14 @@ def _case(draw):
     if draw(st.booleans()):
         spec['n'] = draw(st.integers(1, 6))
     spec['vmin'] = draw(st.sampled_from([0, 1, 1]))
-    form = draw(st.sampled_from(['absent', 'pos', 'neg', 'name', 'list', 'list1']))
+    if spec['vmin'] == 0 and spec['datatype'] == 'I' and spec['n'] >= 2 and draw(st.booleans()):
+        # both ends of the representable range occur (0 and the largest value of the width)
+        top = min(spec['ranges'][0], 2 ** spec['widths'][0]) - 1
+        spec['ranges'] = [2 ** spec['widths'][0] if spec['widths'][0] <= 16 else r for r in spec['ranges']]
+        ctop = draw(st.integers(0, D - 1))
+        spec['specials'] = [[0, draw(st.integers(0, D - 1)), 0],
+                            [1, ctop, min(spec['ranges'][ctop], 2 ** spec['widths'][ctop]) - 1]]
+    form = draw(st.sampled_from(['absent', 'pos', 'neg', 'name', 'list', 'list', 'list1']))
     if form == 'list':
         sel = draw(st.lists(st.integers(0, D - 1), min_size=1, max_size=D, unique=True))
     elif form == 'absent':
@@ -47,6 +54,7 @@ def _case(draw):
         sel = [draw(st.integers(0, D - 1))]
     return dict(spec=spec, container=draw(st.sampled_from(['raw', 'raw', 'rfi', 'mef'])), form=form, sel=sel,
                 presliced=draw(st.sampled_from([None, None, 'slice', 'list'])), cut=draw(st.integers(0, 4)),
+                iterator=draw(st.sampled_from([None, None, None, 'iter', 'generator'])),
                 spell=[draw(st.sampled_from(['name', 'pos', 'neg'])) for _ in sel])
 
 
@@ -201,7 +209,11 @@ def check(case, obs):
         etol = 1e-12 if rtol == 1e-9 else rtol / 10.0
         if rtol == 2e-2 and stat in GEOM:
             etol = 0.25        # half-precision logs (C12-KF1): summation order alone moves gstd by several per cent
-        got_s = call(fn, x, ch_arg)
+        ch_call = ch_arg
+        if is_list and form != 'absent' and case.get('iterator'):
+            # a one-shot iterable of channels is a legal sequence for a sample (each call gets a fresh one)
+            ch_call = iter(list(ch_arg)) if case['iterator'] == 'iter' else (c_ for c_ in list(ch_arg))
+        got_s = call(fn, x, ch_call)
         if not obs.claim('no_raise', not raised(got_s), lambda: '%s(sample, %r) raised %r' % (stat, ch_arg, got_s)):
             continue
         vals = np.atleast_1d(np.asarray(got_s))
